@@ -205,7 +205,7 @@ def gen_program(rng: random.Random, tier: str = "quick") -> dict:
         elif r < 0.85:
             mesh_calls.append(["geometry", {rng.choice(labels + ["other"]): ["type searchablePlane", "planeType pointAndNormal", f"basePoint ({rng.randint(0, 3)} 0 0)"]}])
         else:
-            mesh_calls.append(["setting", rng.choice(["scale", "mergeType", "prescale", "verbose", "checkFaceCorrespondence"]), rng.choice([0.001, "points", "(1 1 2)", "true", 1, None])])
+            mesh_calls.append(["setting", rng.choice(["scale", "mergeType", "prescale", "verbose", "checkFaceCorrespondence"]), rng.choice([0.001, "points", "(1 1 2)", "true", 1, None, 2.5e-05, 0.30000000000000004, 1e16, -0.75, 12345678])])
     # every label that an operation is projected to is defined by the user (the property's premise)
     mesh_calls.append(["geometry", {l: ["type searchableSphere", "centre (0 0 0)", "radius 1"] for l in labels}])
     rng.shuffle(mesh_calls)
@@ -511,7 +511,16 @@ def _g_entries(d: Dict[str, List[str]]) -> List[List[str]]:
 def request_words(decl: dict, case: dict, settings: Dict[str, Any], tails: List[Optional[List[List[str]]]]) -> List[str]:
     """protocol words of the declaration (see CBV/Model/C06.lean, section 5)"""
     words: List[str] = []
-    st = [[w_str(k)] + w_toks(tokenize(str(v))) for k, v in settings.items() if v is not None]
+    import numpy as np
+
+    st = []
+    for k, v in settings.items():
+        if v is None:
+            continue
+        if not isinstance(v, (bool, np.bool_)) and isinstance(v, (int, float, np.integer, np.floating)):
+            st.append([w_str(k), "N", _pynum_word(v)])  # the model prints the number (str(int) / shortest repr)
+        else:
+            st.append([w_str(k), "S"] + w_toks(tokenize(str(v))))
     words += w_list(st)
 
     def calls(name, which):
@@ -604,7 +613,7 @@ class C06(core.Check):
         "distinct = different declaration."
     )
     assumptions = [
-        "the tokenizer of the harness (cbv/props/c06.py: tokenize) maps the text of the file to tokens faithfully",
+        "the raw text of the written file is tokenized by the model (lexText, proved to read back every canonical text of well-formed tokens); the tokenizer of the harness is only a cross-check and is still used for the small strings of the declaration (setting values, geometry properties, patch options)",
         "the numbers of the per-wire Grading.specification and the counts of hex lines, validity and point positions of curved edges "
         "are taken from the implementation (C01-C04, C07, C08) -- their text is printed by the model; str() of setting values "
         "and geometry properties are opaque tokens",
@@ -614,7 +623,7 @@ class C06(core.Check):
     partial_note = (
         "Theorems: bracket-layer and schema-layer round trip of the parser on every dictionary with semicolon-free "
         "statements, structural facts of the assembled dictionary, the text of every %.8f number (reads back to within half a "
-        "unit of the 8th decimal, well-formed). Text <-> token conversion is validated by the correspondence, not proved; "
+        "unit of the 8th decimal, well-formed), the tokenizer reads back canonical texts (T_C06_lex_unlex); that it ignores the real file's layout is validated by the correspondence; "
         "str(float) of grading values and VTK coordinates is generated by the model and validated (accepted tokens are within half an ulp: proved; that the generator is always accepted: run-time check only)."
     )
 
@@ -624,7 +633,9 @@ class C06(core.Check):
         # malformed stream: ill-formed requests must be answered `bad-op`, unbalanced files `noparse`
         cases += [
             {"kind": "protocol", "req": "c06.render 0 0 0 0", "want": "bad-op"},
-            {"kind": "protocol", "req": "c06.render 1 =scale 1 =( 0 0 0 0 ! 0 0 0", "want": "bad-op"},
+            {"kind": "protocol", "req": "c06.render 1 =scale S 1 =( 0 0 0 0 ! 0 0 0", "want": "bad-op"},
+            {"kind": "protocol", "req": "c06.render 1 =scale N X1 0 0 0 0 ! 0 0 0 0", "want": "bad-op"},
+            {"kind": "protocol", "req": "c06.file vertices 0 0 0 0 0 ! 0 0 0 0", "want": "bad-op"},
             {"kind": "protocol", "req": "c06.render 0 0 0 0 0 ! 0 0 0 extra", "want": "bad-op"},
             {"kind": "protocol", "req": "c06.vtk x", "want": "bad-op"},
             {"kind": "protocol", "req": "c06.nothing", "want": "bad-op"},
@@ -686,7 +697,8 @@ class C06(core.Check):
         settings = {k: v for k, v in mesh.settings.items()}
         obs = {
             "decl": decl,
-            "tokens": tokenize(text),
+            "tokens": tokenize(text),  # the Python tokenizer: since round 6c only a cross-check of the model's `lexText`
+            "text": text,
             "vtk": vtk.split() if vtk is not None else None,
             "vtk_missing": vtk_missing,
             "tails": tails,
@@ -706,6 +718,8 @@ class C06(core.Check):
         reqs = ["c06.render " + w, "c06.parse " + " ".join(esc(t) for t in impl["tokens"])]
         if impl["vtk"] is not None:
             reqs.append("c06.vtk " + w)
+        # the raw text of the written file: tokenized and compared with the rendering inside the model
+        reqs.append("c06.file " + w_str(impl["text"]) + " " + w)
         return reqs
 
     def compare(self, case: dict, impl: Any, model: List[str]) -> Optional[str]:
@@ -748,6 +762,17 @@ class C06(core.Check):
                 return "parseVtk does not read the model's VTK back"
             if mv.group(2) != "1":
                 return "a VTK coordinate printed by the model fails the validator reprOk / reprShortest"
+        mf = re.fullmatch(r"ok same=(\d) wf=(\d) relex=(\d) at=(\S+) T ?(.*)", model[-1])
+        if not mf:
+            return "model file: " + model[-1][:200]
+        ft = [unesc(t) for t in mf.group(5).split(" ")] if mf.group(5) else []
+        if mf.group(1) != "1":
+            i = int(mf.group(4)) if mf.group(4) != "-" else 0
+            return f"the text of the file, tokenized by the model, differs from the model's rendering at token {i}: file {ft[max(0, i - 4):i + 4]}, model {toks[max(0, i - 4):i + 4]}"
+        if ft != real:
+            return f"the model's tokenizer and the harness' tokenizer disagree on the text of the file: {len(ft)} / {len(real)} tokens"
+        if mf.group(2) != "1" or mf.group(3) != "1":
+            return f"a rendered token is not well-formed (wf={mf.group(2)}) or the rendering does not read back from its text (relex={mf.group(3)}): instance of T_C06_lex_unlex fails"
         return None
 
     # ------------------------------------------------------------------ oracle: the property on the file itself
@@ -760,6 +785,8 @@ class C06(core.Check):
                 for k in ("words", "tokens", "vtk", "vpos"):
                     if isinstance(impl.get(k), list):
                         impl[k] = f"<{len(impl[k])} items>"
+                if isinstance(impl.get("text"), str):
+                    impl["text"] = f"<{len(impl['text'])} characters>"
                 if isinstance(impl.get("decl"), dict):
                     impl["decl"] = {"entities": [{"cls": e["cls"], "ops": len(e["ops"]), "geometry": sorted(e["geometry"])} for e in impl["decl"]["entities"]]}
 
